@@ -1,18 +1,27 @@
-/* C15 harness (C++ part): reference<T> of mptcore/core.h and refcount of mpt++/refcount_wrap.cpp.
+/* C15 harness (C++ part): reference<T> of mptcore/core.h, refcount of mpt++/refcount_wrap.cpp and
+ * metatype::generic of mpt++/metatype_generic.cpp.
  *
  * Case lines (lines of family c / r belong to c15_refs.c):
- *   <id> x <op> <args> ...   slots 12..14 reference<Obj>, 15..17 raw Obj* (each raw pointer owns one reference)
- *        xnew d | xassign s d | xcopy s d | xmove s d | xdetach s d | xset s d | xdrop d
+ *   <id> x <op> <args> ...   slots 12..14 reference<Obj>, 15..17 raw Obj* (each raw pointer owns one reference);
+ *                            objects: reference<Obj>::type instances (harness class, logging vtable)
+ *   <id> g <op> <args> ...   slots 12..14 reference<metatype>, 15..17 raw metatype*; objects: metatype::generic
+ *        xnew d (x) | xgen d (g) | xclone s d (g) | xassign s d | xcopy s d | xmove s d | xdetach s d | xset s d | xdrop d
  *        addref s d | unref s (raw pointers) | force s <hex> | unforce
  *   <id> y <cop> <args> ...  refcount::raise / refcount::lower on a bare counter
- * Token format: see ml/c15_driver.ml.  The objects are reference<Obj>::type instances; their addref/unref
- * overrides log the call and forward to the library implementation, the destructor logs the destruction. */
+ *   <id> q                   probe: create a metatype::generic and drop its only reference (allocator discipline)
+ * Token format: see ml/c15_driver.ml.  The x objects' addref/unref overrides log the call and forward to the
+ * library implementation, the destructor logs the destruction; metatype::generic is used as it is (no log). */
 #include "common.h"
 #include <new>
 #include <utility>
 #include <sanitizer/asan_interface.h>
 #include <sanitizer/lsan_interface.h>
 #include "core.h"
+#define private public      /* the counter member of metatype::generic is private */
+#define protected public
+#include "meta.h"
+#undef private
+#undef protected
 
 using namespace mpt;
 
@@ -51,168 +60,222 @@ public:
 	}
 };
 
+/* family x: harness objects */
+struct FamObj
+{
+	typedef Obj base;
+	static Obj *create(int id)
+	{
+		CObj *o = new CObj;
+		o->id = id;
+		return o;
+	}
+	static uintptr_t &field(Obj *p) { return static_cast<CObj *>(p)->field(); }
+	static Obj *clone(Obj *) { return 0; }
+	static bool can_create(const char *op) { return !strcmp(op, "xnew"); }
+	static bool can_clone() { return false; }
+};
+/* family g: library objects */
+struct FamGen
+{
+	typedef metatype base;
+	static metatype *create(int)
+	{
+		double v = 1.5;
+		return metatype::generic::create('d', &v);
+	}
+	static uintptr_t &field(metatype *p) { return *reinterpret_cast<uintptr_t *>(&static_cast<metatype::generic *>(p)->_ref); }
+	static metatype *clone(metatype *p) { return p->clone(); }
+	static bool can_create(const char *op) { return !strcmp(op, "xgen"); }
+	static bool can_clone() { return true; }
+};
+
 #define MAXOBJ 256
-static uintptr_t objs[MAXOBJ];   /* inverted pointers: not references for LeakSanitizer */
-static int nobj;
-static CObj *optr(int i) { return reinterpret_cast<CObj *>(~objs[i]); }
-static int find_obj(const Obj *p)
-{
-	if (!p) return -1;
-	for (int i = nobj - 1; i >= 0; i--) if (objs[i] == ~reinterpret_cast<uintptr_t>(static_cast<const CObj *>(p))) return i;
-	return -1;
-}
-static int alive(int i) { return !__asan_address_is_poisoned(optr(i)); }
-
-static reference<Obj> rslot[3];
-static Obj *pslot[3];
-
 static int bank(int i) { return i < 0 ? 5 : i < 6 ? 0 : i < 9 ? 1 : i < 12 ? 2 : i < 15 ? 3 : i < 18 ? 4 : 5; }
-static int slot_obj(int i)
-{
-	if (bank(i) == 3) return find_obj(rslot[i - 12].instance());
-	if (bank(i) == 4) return find_obj(pslot[i - 15]);
-	return -1;
-}
-static uintptr_t held(int o)
-{
-	uintptr_t n = 0;
-	for (int i = 12; i < 18; i++) if (slot_obj(i) == o) n++;
-	return n;
-}
-static void dump()
-{
-	int any = 0;
-	vh_add("|");
-	for (int i = 0; i < nobj; i++) {
-		if (i) vh_add(",");
-		if (!alive(i)) vh_add("x");
-		else vh_add("%llx", (unsigned long long) optr(i)->field());
-	}
-	if (!nobj) vh_add("-");
-	vh_add("|");
-	for (int i = 12; i < 18; i++) {
-		int o = slot_obj(i);
-		if (o < 0) continue;
-		vh_add("%s%d:%d", any ? "," : "", i, o);
-		any = 1;
-	}
-	if (!any) vh_add("-");
-	vh_add("|%s", evlen ? evlog : "-");
-}
 __attribute__((noinline)) static void clear_stack()
 {
 	volatile char pad[16384];
 	for (size_t i = 0; i < sizeof(pad); i++) pad[i] = 0;
 }
 #define ARGI(n) ((int) vh_int(tok[t + (n)]))
-static void run_objects(int ntok, char **tok)
+
+template <class F>
+struct Run
 {
-	int t = 2;
-	while (t < ntok) {
-		const char *op = tok[t++];
-		evlen = 0; evlog[0] = 0;
-		if (!strcmp(op, "xnew")) {
-			int d = ARGI(0);
-			t += 1;
-			if (bank(d) != 3 || nobj >= MAXOBJ) vh_tok("X");
-			else {
-				CObj *o = new CObj;
-				o->id = nobj;
-				objs[nobj++] = ~reinterpret_cast<uintptr_t>(o);
-				rslot[d - 12].set_instance(o);
-				vh_tok("D");
-			}
-		}
-		else if (!strcmp(op, "xassign")) {
-			int s = ARGI(0), d = ARGI(1);
-			t += 2;
-			if (bank(s) != 3 || bank(d) != 3) vh_tok("X");
-			else { rslot[d - 12] = rslot[s - 12]; vh_tok("D"); }
-		}
-		else if (!strcmp(op, "xcopy")) {
-			int s = ARGI(0), d = ARGI(1);
-			t += 2;
-			if (bank(s) != 3 || bank(d) != 3 || s == d) vh_tok("X");
-			else {
-				rslot[d - 12].~reference<Obj>();
-				new (&rslot[d - 12]) reference<Obj>(rslot[s - 12]);
-				vh_tok("D");
-			}
-		}
-		else if (!strcmp(op, "xmove")) {
-			int s = ARGI(0), d = ARGI(1);
-			t += 2;
-			if (bank(s) != 3 || bank(d) != 3) vh_tok("X");
-			else { rslot[d - 12] = std::move(rslot[s - 12]); vh_tok("D"); }
-		}
-		else if (!strcmp(op, "xdetach")) {
-			int s = ARGI(0), d = ARGI(1);
-			t += 2;
-			if (bank(s) != 3 || bank(d) != 4 || pslot[d - 15]) vh_tok("X");
-			else { pslot[d - 15] = rslot[s - 12].detach(); vh_tok("D"); }
-		}
-		else if (!strcmp(op, "xset")) {
-			int s = ARGI(0), d = ARGI(1);
-			t += 2;
-			if (bank(s) != 4 || bank(d) != 3) vh_tok("X");
-			else {
-				Obj *p = pslot[s - 15];
-				pslot[s - 15] = 0;
-				rslot[d - 12].set_instance(p);
-				vh_tok("D");
-			}
-		}
-		else if (!strcmp(op, "xdrop")) {
-			int d = ARGI(0);
-			t += 1;
-			if (bank(d) != 3) vh_tok("X");
-			else { rslot[d - 12].set_instance(0); vh_tok("D"); }
-		}
-		else if (!strcmp(op, "addref")) {
-			int s = ARGI(0), d = ARGI(1);
-			t += 2;
-			if (bank(s) != 4 || bank(d) != 4 || !pslot[s - 15] || pslot[d - 15]) vh_tok("X");
-			else {
-				uintptr_t r = pslot[s - 15]->addref();
-				if (r) pslot[d - 15] = pslot[s - 15];
-				vh_tok("R%llx", (unsigned long long) r);
-			}
-		}
-		else if (!strcmp(op, "unref")) {
-			int s = ARGI(0);
-			t += 1;
-			if (bank(s) != 4 || !pslot[s - 15]) vh_tok("X");
-			else {
-				Obj *p = pslot[s - 15];
-				pslot[s - 15] = 0;
-				p->unref();
-				vh_tok("D");
-			}
-		}
-		else if (!strcmp(op, "force")) {
-			int s = ARGI(0), o;
-			unsigned long long v = strtoull(tok[t + 1], 0, 16);
-			t += 2;
-			o = bank(s) == 3 ? slot_obj(s) : -1;
-			if (o < 0 || v < 1 || held(o) > v) vh_tok("X");
-			else { optr(o)->field() = (uintptr_t) v; vh_tok("D"); }
-		}
-		else if (!strcmp(op, "unforce")) {
-			int n = nobj;
-			for (int i = 0; i < n; i++) {
-				uintptr_t h;
-				if (!alive(i)) continue;
-				if ((h = held(i))) optr(i)->field() = h;
-				else { optr(i)->field() = 1; static_cast<Obj *>(optr(i))->unref(); }
-			}
-			vh_tok("D");
-		}
-		else { vh_tok("?op:%s", op); break; }
-		dump();
+	typedef typename F::base T;
+	uintptr_t objs[MAXOBJ];   /* inverted pointers: not references for LeakSanitizer */
+	int nobj;
+	reference<T> rslot[3];
+	T *pslot[3];
+
+	Run() : nobj(0) { pslot[0] = pslot[1] = pslot[2] = 0; }
+	T *optr(int i) { return reinterpret_cast<T *>(~objs[i]); }
+	int reg(T *p)
+	{
+		objs[nobj] = ~reinterpret_cast<uintptr_t>(p);
+		return nobj++;
 	}
-	clear_stack();
-	vh_tok("L%d", __lsan_do_recoverable_leak_check() ? 1 : 0);
-}
+	int find_obj(const T *p)
+	{
+		if (!p) return -1;
+		for (int i = nobj - 1; i >= 0; i--) if (objs[i] == ~reinterpret_cast<uintptr_t>(p)) return i;
+		return -1;
+	}
+	int alive(int i) { return !__asan_address_is_poisoned(optr(i)); }
+	int slot_obj(int i)
+	{
+		if (bank(i) == 3) return find_obj(rslot[i - 12].instance());
+		if (bank(i) == 4) return find_obj(pslot[i - 15]);
+		return -1;
+	}
+	uintptr_t held(int o)
+	{
+		uintptr_t n = 0;
+		for (int i = 12; i < 18; i++) if (slot_obj(i) == o) n++;
+		return n;
+	}
+	void dump()
+	{
+		int any = 0;
+		vh_add("|");
+		for (int i = 0; i < nobj; i++) {
+			if (i) vh_add(",");
+			if (!alive(i)) vh_add("x");
+			else vh_add("%llx", (unsigned long long) F::field(optr(i)));
+		}
+		if (!nobj) vh_add("-");
+		vh_add("|");
+		for (int i = 12; i < 18; i++) {
+			int o = slot_obj(i);
+			if (o < 0) continue;
+			vh_add("%s%d:%d", any ? "," : "", i, o);
+			any = 1;
+		}
+		if (!any) vh_add("-");
+		vh_add("|%s", evlen ? evlog : "-");
+	}
+	void run(int ntok, char **tok)
+	{
+		int t = 2;
+		while (t < ntok) {
+			const char *op = tok[t++];
+			evlen = 0; evlog[0] = 0;
+			if (!strcmp(op, "xnew") || !strcmp(op, "xgen")) {
+				int d = ARGI(0);
+				t += 1;
+				if (!F::can_create(op) || bank(d) != 3 || nobj >= MAXOBJ) vh_tok("X");
+				else {
+					T *o = F::create(nobj);
+					if (!o) { vh_tok("?create"); break; }
+					reg(o);
+					rslot[d - 12].set_instance(o);
+					vh_tok("D");
+				}
+			}
+			else if (!strcmp(op, "xclone")) {
+				int s = ARGI(0), d = ARGI(1);
+				t += 2;
+				if (!F::can_clone() || bank(s) != 3 || bank(d) != 4 || slot_obj(s) < 0 || pslot[d - 15] || nobj >= MAXOBJ) vh_tok("X");
+				else {
+					T *n = F::clone(rslot[s - 12].instance());
+					if (!n) vh_tok("E");
+					else { reg(n); pslot[d - 15] = n; vh_tok("D"); }
+				}
+			}
+			else if (!strcmp(op, "xassign")) {
+				int s = ARGI(0), d = ARGI(1);
+				t += 2;
+				if (bank(s) != 3 || bank(d) != 3) vh_tok("X");
+				else { rslot[d - 12] = rslot[s - 12]; vh_tok("D"); }
+			}
+			else if (!strcmp(op, "xcopy")) {
+				int s = ARGI(0), d = ARGI(1);
+				t += 2;
+				if (bank(s) != 3 || bank(d) != 3 || s == d) vh_tok("X");
+				else {
+					rslot[d - 12].~reference<T>();
+					new (&rslot[d - 12]) reference<T>(rslot[s - 12]);
+					vh_tok("D");
+				}
+			}
+			else if (!strcmp(op, "xmove")) {
+				int s = ARGI(0), d = ARGI(1);
+				t += 2;
+				if (bank(s) != 3 || bank(d) != 3) vh_tok("X");
+				else { rslot[d - 12] = std::move(rslot[s - 12]); vh_tok("D"); }
+			}
+			else if (!strcmp(op, "xdetach")) {
+				int s = ARGI(0), d = ARGI(1);
+				t += 2;
+				if (bank(s) != 3 || bank(d) != 4 || pslot[d - 15]) vh_tok("X");
+				else { pslot[d - 15] = rslot[s - 12].detach(); vh_tok("D"); }
+			}
+			else if (!strcmp(op, "xset")) {
+				int s = ARGI(0), d = ARGI(1);
+				t += 2;
+				if (bank(s) != 4 || bank(d) != 3) vh_tok("X");
+				else {
+					T *p = pslot[s - 15];
+					pslot[s - 15] = 0;
+					rslot[d - 12].set_instance(p);
+					vh_tok("D");
+				}
+			}
+			else if (!strcmp(op, "xdrop")) {
+				int d = ARGI(0);
+				t += 1;
+				if (bank(d) != 3) vh_tok("X");
+				else { rslot[d - 12].set_instance(0); vh_tok("D"); }
+			}
+			else if (!strcmp(op, "addref")) {
+				int s = ARGI(0), d = ARGI(1);
+				t += 2;
+				if (bank(s) != 4 || bank(d) != 4 || !pslot[s - 15] || pslot[d - 15]) vh_tok("X");
+				else {
+					uintptr_t r = pslot[s - 15]->addref();
+					if (r) pslot[d - 15] = pslot[s - 15];
+					vh_tok("R%llx", (unsigned long long) r);
+				}
+			}
+			else if (!strcmp(op, "unref")) {
+				int s = ARGI(0);
+				t += 1;
+				if (bank(s) != 4 || !pslot[s - 15]) vh_tok("X");
+				else {
+					T *p = pslot[s - 15];
+					pslot[s - 15] = 0;
+					p->unref();
+					vh_tok("D");
+				}
+			}
+			else if (!strcmp(op, "force")) {
+				int s = ARGI(0), o;
+				unsigned long long v = strtoull(tok[t + 1], 0, 16);
+				t += 2;
+				o = bank(s) == 3 ? slot_obj(s) : -1;
+				if (o < 0 || v < 1 || held(o) > v) vh_tok("X");
+				else { F::field(optr(o)) = (uintptr_t) v; vh_tok("D"); }
+			}
+			else if (!strcmp(op, "unforce")) {
+				int n = nobj;
+				for (int i = 0; i < n; i++) {
+					uintptr_t h;
+					if (!alive(i)) continue;
+					if ((h = held(i))) F::field(optr(i)) = h;
+					else { F::field(optr(i)) = 1; optr(i)->unref(); }
+				}
+				vh_tok("D");
+			}
+			else { vh_tok("?op:%s", op); break; }
+			dump();
+		}
+		clear_stack();
+		vh_tok("L%d", __lsan_do_recoverable_leak_check() ? 1 : 0);
+	}
+};
+static Run<FamObj> runx;
+static Run<FamGen> rung;
+
 static void run_counter(int ntok, char **tok)
 {
 	refcount *ref = new refcount(1);
@@ -228,12 +291,23 @@ static void run_counter(int ntok, char **tok)
 	}
 	delete ref;
 }
+/* the block of a metatype::generic comes from malloc(): it must go back through free() */
+static void run_probe()
+{
+	double v = 1.5;
+	metatype *m = metatype::generic::create('d', &v);
+	if (!m) { vh_tok("?create"); return; }
+	m->unref();
+	vh_tok("D");
+}
 static void run_case(int ntok, char **tok)
 {
 	if (sizeof(uintptr_t) != 8 || sizeof(refcount) != sizeof(uintptr_t)) { vh_tok("?uintptr_t"); return; }
 	if (ntok < 2) return;
-	if (!strcmp(tok[1], "x")) run_objects(ntok, tok);
+	if (!strcmp(tok[1], "x")) runx.run(ntok, tok);
+	else if (!strcmp(tok[1], "g")) rung.run(ntok, tok);
 	else if (!strcmp(tok[1], "y")) run_counter(ntok, tok);
+	else if (!strcmp(tok[1], "q")) run_probe();
 	else vh_tok("?family");
 }
 int main(int argc, char **argv)
